@@ -11,6 +11,7 @@ import PydapModel.Dmr
 import Proofs.Dmr
 import Proofs.DmrParse
 import Proofs.DmrServer
+import Proofs.DmrDemo
 namespace Pydap.C11
 open Pydap Pydap.Dmr
 
@@ -90,7 +91,7 @@ def srvDtypeOf (kind : Char) (dtypeName : Str) : Str :=
 
 def srvDtype (v : SrvVar) : Str := srvDtypeOf v.kind v.dtypeName
 
-theorem srvDtype_table : ∀ d ∈ numericDtypes, srvDtypeOf d.1 d.2.1.toList = d.2.2.toList := by decide
+theorem C11_server_dtype_table : ∀ d ∈ numericDtypes, srvDtypeOf d.1 d.2.1.toList = d.2.2.toList := by decide
 
 /-- **Server round trip**: for every served dataset — groups nested to any depth, each with its own dimensions,
     variables of the ten numeric types anywhere, variables and groups in any `children()` order — whose names are
@@ -108,7 +109,7 @@ theorem C11_server_roundtrip (name : Str) (dims : List (Str × Nat)) (kids : Srv
   intro pv hpv
   obtain ⟨d, hd', hk, hn⟩ := hty pv hpv
   have h1 := (C11_server_types d hd').2
-  have h2 := srvDtype_table d hd'
+  have h2 := C11_server_dtype_table d hd'
   have e : srvDtype pv.2 = d.2.2.toList := by
     rw [← h2]; simp only [srvDtype, hk, hn]
   rw [e, hk, hn, h1]; rfl
@@ -123,57 +124,6 @@ example : ∀ d ∈ [SDim.named "/x".toList 3, .anon 5], ∀ fq s, d = .named fq
   decide
 example : dictGet [("x".toList, (3 : Int))] (dimKey "/x".toList) = some 3 := by decide
 example : SDim.names [.named "/x".toList 3, .anon 5, .named "/g/y".toList 2] = ["x".toList, "/g/y".toList] := by decide
-
-/-- a spec with a dimension and a variable at the root, a nested group re-using both short names, a variable
-    declared after the group, mixed Dims, an attribute in two syntaxes -/
-def demo : Spec :=
-  .dim "x".toList 3 <|
-  .var ⟨"Int32".toList, "x".toList, [.named "/x".toList 3], [], []⟩ <|
-  .group "g".toList
-    (.dim "x".toList 2 <|
-     .var ⟨"Float64".toList, "x".toList, [.named "/g/x".toList 2, .anon 5, .named "/x".toList 3],
-        [⟨"scale".toList, "UInt8".toList, some (.int "007".toList 7), [(true, .int "1".toList 1), (false, .int "2".toList 2)]⟩],
-        ["/x".toList]⟩ .nil) <|
-  .var ⟨"UInt16".toList, "after".toList, [], [], []⟩ .nil
-
-example : expectVars demo =
-    [⟨"x".toList, "x".toList, none, ">i4".toList, ["/x".toList], [3], [], []⟩,
-     ⟨"/g/x".toList, "x".toList, some "/g".toList, ">f8".toList, ["/g/x".toList, "/x".toList], [2, 5, 3], [some "/x".toList],
-       [("scale".toList, .many [.int 7, .int 1, .int 2])]⟩,
-     ⟨"after".toList, "after".toList, none, ">u2".toList, [], [], [], []⟩] := by decide
-theorem demo_ok : demo.ok := by
-  have hx : plainName "x".toList := ⟨by decide, by decide⟩
-  have hg : plainName "g".toList := ⟨by decide, by decide⟩
-  have ha : plainName "after".toList := ⟨by decide, by decide⟩
-  have hattr : SAttr.ok ⟨"scale".toList, "UInt8".toList, some (.int "007".toList 7),
-      [(true, .int "1".toList 1), (false, .int "2".toList 2)]⟩ := by
-    refine Or.inr (Or.inl ⟨by decide, by decide, ?_⟩)
-    intro v hv
-    simp only [SAttr.all, Option.toList, List.map, List.cons_append, List.nil_append, List.mem_cons,
-      List.not_mem_nil, or_false] at hv
-    rcases hv with rfl | rfl | rfl
-    · exact ⟨_, _, rfl, by rfl⟩
-    · exact ⟨_, _, rfl, by rfl⟩
-    · exact ⟨_, _, rfl, by rfl⟩
-  refine ⟨hx, ⟨by decide, hx, by simp, by simp⟩, hg, ⟨hx, ⟨by decide, hx, ?_, by simp⟩, trivial⟩,
-    ⟨by decide, ha, by simp, by simp⟩, trivial⟩
-  intro a hm
-  simp only [List.mem_cons, List.not_mem_nil, or_false] at hm
-  subst hm; exact hattr
-
-theorem demo_refs : refsResolve demo := by
-  intro pv hpv fq sz hm
-  simp only [demo, specVars, List.nil_append, List.mem_cons, List.append_nil, List.not_mem_nil, or_false,
-    List.cons_append] at hpv
-  rcases hpv with rfl | rfl | rfl
-  · simp only [List.mem_cons, List.not_mem_nil, or_false, SDim.named.injEq] at hm
-    obtain ⟨rfl, rfl⟩ := hm
-    exact ⟨([], "x".toList, 3), by simp [demo, declDims], by decide, rfl⟩
-  · simp only [List.mem_cons, List.not_mem_nil, or_false, SDim.named.injEq, reduceCtorEq, false_or] at hm
-    rcases hm with ⟨rfl, rfl⟩ | ⟨rfl, rfl⟩
-    · exact ⟨(["g".toList], "x".toList, 2), by simp [demo, declDims], by decide, rfl⟩
-    · exact ⟨([], "x".toList, 3), by simp [demo, declDims], by decide, rfl⟩
-  · cases hm
 
 example : parseVars (renderRoot [] "ds".toList demo) = .ok (expectVars demo) :=
   C11_parse [] _ demo demo_ok demo_refs (by unfold distinctVars; decide) (by unfold distinctDims; decide)
